@@ -15,6 +15,7 @@ G_HeadTruthful       == Guard => HeadTruthful
 G_DbIsLogPrefix      == Guard => DbIsLogPrefix
 G_DurableNotAhead    == Guard => DurableNotAheadOfLog
 G_AckedDurable       == Guard => AckedDurable
+G_CommitLeHead       == Guard => CommitLeHead
 
 Symm == Permutations({v1, v2, v3}) \cup Permutations({a, b, c})
 SymmV == Permutations({v1, v2, v3})
